@@ -210,5 +210,5 @@ def run(ctx):
                   "the compiled evaluator is tied by correspondence (degrees up to 40); rounding allowance = the PROVED bound ((1+u)^(4d+4)-1) sum|b||v| of the standard-model theorem "
                   "(for the Fortran text the proved allowance is validated on the stream, not proved)",
                   search=search,
-                  unproved=["that binary64 satisfies the standard model is an assumption of the rounding theorem; overflow / underflow / NaN outside it",
+                  unproved=["the rounding theorems are instantiated at Flocq FLX(53); overflow / underflow / NaN outside",
                             "the literal index walk of the Python/Fortran loops is modelled through split_rows (tied by correspondence)"])
